@@ -13,16 +13,23 @@ mod vk_seq {
     // failure of the same clause is still reported under its own name
     macro_rules! chk {
         ($c:expr, $cond:expr, $msg:literal) => {
-            if $c > usize::MAX as u128 { assert!($cond, "[C16 after-counter-wrap] behaves like a sequential cursor also after the cumulative requested count exceeded usize::MAX"); }
+            if $c.over { assert!($cond, "[C16 after-counter-wrap] behaves like a sequential cursor also after the cumulative requested count exceeded usize::MAX"); }
             else { assert!($cond, $msg); }
         };
     }
 
     // one step of the sequential cursor model; returns (delivered begin, delivered end) of a pull
-    fn model_pull(c: &mut u128, n: usize, len: usize) -> (usize, usize) {
+    // the model cursor is the mathematical cumulative request count: a usize plus an "exceeded usize::MAX" flag
+    #[derive(Clone, Copy)]
+    struct Cur { v: usize, over: bool }
+    impl Cur {
+        fn below(&self, len: usize) -> bool { !self.over && self.v < len }
+        fn add(&mut self, n: usize) { match self.v.checked_add(n) { Some(x) => self.v = x, None => { self.over = true; self.v = usize::MAX; } } }
+    }
+    fn model_pull(c: &mut Cur, n: usize, len: usize) -> (usize, usize) {
         let b = *c;
-        *c += n as u128;
-        if b < len as u128 { let b = b as usize; (b, if n < len - b { b + n } else { len }) } else { (len, len) }
+        c.add(n);
+        if b.below(len) { let b = b.v; (b, if n < len - b { b + n } else { len }) } else { (len, len) }
     }
 
     fn run_slice(nowrap: bool) {
@@ -31,7 +38,7 @@ mod vk_seq {
         kani::assume(len <= N);
         let slice = &data[..len];
         let it = ConIterOfSlice::new(slice);
-        let mut c: u128 = 0;
+        let mut c = Cur { v: 0, over: false };
         let mut last_delivered: Option<usize> = None;
         let mut ended = false;
         let mut step = 0;
@@ -40,7 +47,7 @@ mod vk_seq {
             kani::assume(op < 5);
             if op == 0 {
                 let (b, e) = model_pull(&mut c, 1, len);
-                if nowrap { kani::assume(c <= usize::MAX as u128); }
+                if nowrap { kani::assume(!c.over); }
                 let r = it.next_id_and_value();
                 if b < e {
                     chk!(c, !ended, "[C05 C06 C16 seq-end-permanent] no element appears again after a pull reported the end");
@@ -53,7 +60,7 @@ mod vk_seq {
                 let n: usize = kani::any();
                 kani::assume(n >= 1);
                 let (b, e) = model_pull(&mut c, n, len);
-                if nowrap { kani::assume(c <= usize::MAX as u128); }
+                if nowrap { kani::assume(!c.over); }
                 let mut buf = it.buffered_iter(n);
                 let r = if op == 1 { it.next_chunk(n).map(|ch| (ch.begin_idx, ch.values.len())) } else { buf.next().map(|ch| (ch.begin_idx, ch.values.len())) };
                 if b < e {
@@ -63,19 +70,19 @@ mod vk_seq {
                     last_delivered = Some(e - 1);
                 } else { chk!(c, r.is_none(), "[C04 C05 C06 C16 seq-end] a pull past the end reports the end"); ended = true; }
             } else if op == 3 {
-                let rem = if c < len as u128 { len - c as usize } else { 0 };
+                let rem = if c.below(len) { len - c.v } else { 0 };
                 chk!(c, it.try_get_len() == Some(rem), "[C11 C04 C06 seq-len] try_get_len equals the number of elements later pulls will deliver");
                 chk!(c, it.has_more() == if rem == 0 { HasMore::No } else { HasMore::Yes(rem) }, "[C11 seq-more] has_more is Yes(n) exactly in that situation, No otherwise");
             } else {
                 it.skip_to_end();
-                if c < len as u128 { c = len as u128; }
+                if c.below(len) { c.v = len; }
                 chk!(c, it.has_more() == HasMore::No, "[C06 C11 seq-skip] has_more is No after skip_to_end");
             }
             step += 1;
         }
         kani::cover!(ended && last_delivered == Some(2), "ran to the end of a full slice");
         // into_seq_iter: exactly the undelivered remainder, in order
-        let k = if c < len as u128 { c as usize } else { len };
+        let k = if c.below(len) { c.v } else { len };
         let mut s = it.into_seq_iter();
         let mut j = k;
         while j < N + 1 {
@@ -101,7 +108,7 @@ mod vk_seq {
         let len: usize = kani::any();
         kani::assume(len <= N && s0 <= usize::MAX - len);
         let it = ConIterOfRange::new(s0..s0 + len);
-        let mut c: u128 = 0;
+        let mut c = Cur { v: 0, over: false };
         let mut ended = false;
         let mut step = 0;
         while step < 3 {
@@ -109,12 +116,12 @@ mod vk_seq {
             kani::assume(op < 4);
             if op == 3 {
                 it.skip_to_end();
-                if c < len as u128 { c = len as u128; }
+                if c.below(len) { c.v = len; }
                 ended = true;
                 assert!(it.has_more() == HasMore::No, "[C06 C11 seq-skip] has_more is No after skip_to_end");
             } else if op == 0 {
                 let (b, e) = model_pull(&mut c, 1, len);
-                if nowrap { kani::assume(c <= usize::MAX as u128); }
+                if nowrap { kani::assume(!c.over); }
                 let r = it.next_id_and_value().map(|x| (x.idx, x.value));
                 if b < e { chk!(c, !ended, "[C05 C06 C16 seq-end-permanent] no element appears again after a pull reported the end"); chk!(c, r == Some((b, s0 + b)), "[C04 C02 C16 seq-cursor] a single pull yields what the sequential iterator would yield next"); }
                 else { chk!(c, r.is_none(), "[C04 C05 C06 C16 seq-end] a pull past the end reports the end"); ended = true; }
@@ -122,18 +129,18 @@ mod vk_seq {
                 let n: usize = kani::any();
                 kani::assume(n >= 1);
                 let (b, e) = model_pull(&mut c, n, len);
-                if nowrap { kani::assume(c <= usize::MAX as u128); }
+                if nowrap { kani::assume(!c.over); }
                 let r = it.next_chunk(n).map(|mut ch| (ch.begin_idx, ch.values.len(), ch.values.next()));
                 if b < e { chk!(c, !ended, "[C05 C06 C16 seq-end-permanent] no element appears again after a pull reported the end"); chk!(c, r == Some((b, e - b, Some(s0 + b))), "[C04 C03 C16 seq-cursor] a chunk pull yields the next run of the sequential iterator"); }
                 else { chk!(c, r.is_none(), "[C04 C05 C06 C16 seq-end] a pull past the end reports the end"); ended = true; }
             } else {
-                let rem = if c < len as u128 { len - c as usize } else { 0 };
+                let rem = if c.below(len) { len - c.v } else { 0 };
                 chk!(c, it.try_get_len() == Some(rem), "[C11 C04 C06 seq-len] try_get_len equals the number of elements later pulls will deliver");
             }
             step += 1;
         }
         kani::cover!(ended, "ran past the end");
-        let k = if c < len as u128 { c as usize } else { len };
+        let k = if c.below(len) { c.v } else { len };
         let r = it.into_seq_iter();
         if k < len { chk!(c, r.start == s0 + k && r.end == s0 + len, "[C10 C04 seq-remainder] into_seq_iter yields exactly the undelivered remainder, in source order"); }
         else { chk!(c, r.start >= r.end, "[C10 seq-remainder] into_seq_iter yields nothing but the undelivered remainder"); }
